@@ -21,9 +21,9 @@
 (* API variants (next(), readlines(None), seek(off), keyword arguments)    *)
 (* are logged under the abstract call they stand for.  readlines(h >= 1)   *)
 (* may return any number of complete lines that reaches the hint or the    *)
-(* end; list(member) must return every line unless the constant            *)
-(* IterSingleLine enables the known deviation (harness decides from        *)
-(* known_findings.json).  Names are logged as code-point hex strings.      *)
+(* end; list(member) must return every remaining line (IterSingleLine is  *)
+(* FALSE: the former deviation is fixed and no longer admitted).  Names    *)
+(* are logged as code-point hex strings.                                   *)
 (* Batched: <<"ACCEPTED", tid>> is printed for every trace explained       *)
 (* completely, <<"AT", tid, l>> per explained event when TRACE_DIAG = "1". *)
 (***************************************************************************)
